@@ -152,6 +152,10 @@ theorem applyOp_frame (cfg : Cfg) (c : Ctx) (op : Op) :
   | addRefund g => exact ⟨rfl, rfl⟩
   | subRefund g => exact ⟨rfl, rfl⟩
   | prepare x i => exact ⟨rfl, rfl⟩
+  | setCredits a n => exact Fr.trans (ensure_fr c a) ⟨rfl, rfl⟩
+  | addPreimage p d =>
+    simp only [applyOp]
+    split <;> exact ⟨rfl, rfl⟩
 
 /-- `journal.revert` down to the length of a suffix = undo the entries above it -/
 theorem revertJournal_split (es rest : List Entry) (c : Ctx) :
